@@ -8,8 +8,8 @@
 //! Request: `<op> <base> (<file>…) (<query>…) [(<label>…)]`, `file := (<name> <rank> <content>)`,
 //! `content := (tiny <mappings>) | (diff <diff>) | (raw x<bytes>)`, `label := (<node> <mappings>)`.
 //! Files are created in ascending `rank`; they are *listed in the request in the order `read_dir` returned them* when the
-//! generator probed the same creation sequence (the model needs the listing order only outside the well-formed domain; if
-//! an ill-formed directory lists differently at `exec` time the case is skipped).
+//! generator probed the same creation sequence. `resolve` sorts the listing, so neither side's answer may depend on it:
+//! a dependence of the implementation on the creation order shows up as a differing answer.
 //!
 //! Edge files. A `(diff …)` content must be inside the write/read fixed-point domain of the `.tinydiff` text as the
 //! *specification* describes it (`diffgen::writable` + no `Edit(a, a)`; decided without the code under test); the file is
@@ -208,10 +208,55 @@ fn keys_of(vs: &str) -> Vec<&str> { match vs.split_once('~') { Some((c, s)) => v
 
 fn dir_versions(names: &[&str]) -> Vec<String> { names.iter().flat_map(|n| file_versions(n).unwrap_or_default()).collect() }
 
-/// no two different version strings share a lookup key
+/// no two different version strings share a lookup key (distribution only: nothing is restricted to these directories)
 fn well_formed(names: &[&str]) -> bool {
 	let vss = dir_versions(names);
 	vss.iter().all(|a| vss.iter().all(|b| a == b || keys_of(a).iter().all(|k| !keys_of(b).contains(k))))
+}
+
+fn is_split(vs: &str) -> bool { vs.contains('~') }
+
+/// how key `k` refers to the version string `vs`
+fn key_kind(k: &str, vs: &str) -> Option<Split> {
+	match vs.split_once('~') {
+		Some((c, s)) => if k == c { Some(Split::First) } else if k == s { Some(Split::Second) } else { None },
+		None => if k == vs { Some(Split::None) } else { None },
+	}
+}
+
+/// the `client~server` version string of the directory that has `k` as a half
+fn owner_of<'a>(vss: &'a [String], k: &str) -> Option<(Split, &'a str)> {
+	vss.iter().filter(|n| is_split(n)).find_map(|n| key_kind(k, n).map(|sp| (sp, n.as_str())))
+}
+
+/// the node a version string of a file name stands for
+fn node_of(vss: &[String], vs: &str) -> String {
+	if is_split(vs) { return vs.to_owned(); }
+	owner_of(vss, vs).map(|(_, n)| n.to_owned()).unwrap_or_else(|| vs.to_owned())
+}
+
+/// two different `client~server` version strings share a half
+fn ambiguous(vss: &[String]) -> bool {
+	let sp: Vec<&String> = vss.iter().filter(|n| is_split(n)).collect();
+	sp.iter().any(|a| sp.iter().any(|b| a != b && keys_of(a).iter().any(|k| keys_of(b).contains(k))))
+}
+
+/// the version strings that are the name of a node
+fn node_strings(vss: &[String]) -> BTreeSet<String> {
+	vss.iter().filter(|v| is_split(v) || owner_of(vss, v).is_none()).cloned().collect()
+}
+
+/// (parent node, child node, file name) of every diff file with a well-formed name
+fn node_edges(names: &[&str]) -> Vec<(String, String, String)> {
+	let vss = dir_versions(names);
+	names.iter().filter_map(|n| n.strip_suffix(".tinydiff").and_then(|raw| raw.split_once('#')).map(|(p, c)| (node_of(&vss, p), node_of(&vss, c), (*n).to_owned()))).collect()
+}
+
+/// two diff files join the same ordered pair of nodes
+fn dup_edges(names: &[&str]) -> bool {
+	let es = node_edges(names);
+	let pairs: BTreeSet<(&String, &String)> = es.iter().map(|(p, c, _)| (p, c)).collect();
+	pairs.len() != es.len()
 }
 
 // =================================================================== the implementation's answer
@@ -294,7 +339,11 @@ fn res_sexp(r: &Option<String>) -> Sexp {
 	match r { Some(s) => Sexp::list(vec![Sexp::tag("ok"), Sexp::Atom(s.clone())]), None => Sexp::tag("err") }
 }
 
-fn vg_answer(dir: &Path, queries: &[String]) -> Option<Sexp> {
+fn vg_answer(dir: &Path, queries: &[String]) -> Option<Sexp> { vg_answer_with(dir, queries, false) }
+
+/// `raw`: with the answer of `apply_diffs` for every version as it is, also where several are admissible (only compared
+/// between runs of the implementation, never with the model)
+fn vg_answer_with(dir: &Path, queries: &[String], raw: bool) -> Option<Sexp> {
 	let g = VersionGraph::resolve(dir).ok()?;
 	let r = analyse(&g)?;
 	let mut edges: Vec<(Vec<u32>, Vec<u32>, String, String)> = Vec::new();
@@ -303,7 +352,7 @@ fn vg_answer(dir: &Path, queries: &[String]) -> Option<Sexp> {
 	}
 	edges.sort();
 	let tagged = |t: &str, mut v: Vec<Sexp>| { v.insert(0, Sexp::tag(t)); Sexp::list(v) };
-	Some(Sexp::list(vec![
+	let mut out = vec![
 		Sexp::list(vec![Sexp::tag("root"), Sexp::str(r.root.as_str()), canon(r.root_m)]),
 		tagged("nodes", r.nodes.iter().map(|(n, v)| Sexp::list(vec![Sexp::str(n), Sexp::nat(v.depth())])).collect()),
 		tagged("edges", edges.iter().map(|(_, _, p, c)| Sexp::list(vec![Sexp::str(p), Sexp::str(c)])).collect()),
@@ -319,26 +368,22 @@ fn vg_answer(dir: &Path, queries: &[String]) -> Option<Sexp> {
 			};
 			Sexp::list(vec![Sexp::str(n), shown])
 		}).collect()),
-	]))
+	];
+	if raw { out.push(tagged("raw", r.nodes.iter().map(|(n, v)| Sexp::list(vec![Sexp::str(n), res_sexp(&r.actual(*v))])).collect())); }
+	Some(Sexp::list(out))
 }
 
 // =================================================================== exec
 
 enum Prepared { Dir(TempDir), Skip(String), Bad(String) }
 
-/// the directory of a request, created by rank; ill-formed directories must list as the request says
+/// the directory of a request, created by rank
 fn prepare(req: &Req) -> Prepared {
-	let td = match materialize(req.base, &by_rank(&req.files)) {
-		Ok(Some(td)) => td,
-		Ok(None) => return Prepared::Skip("base-missing".into()),
-		Err(e) => return Prepared::Bad(e),
-	};
-	let names: Vec<&str> = req.files.iter().map(|f| f.name.as_str()).collect();
-	if !well_formed(&names) {
-		let l = listing(&td.0);
-		if l.iter().map(|s| s.as_str()).collect::<Vec<_>>() != names { return Prepared::Skip("listing-order".into()); }
+	match materialize(req.base, &by_rank(&req.files)) {
+		Ok(Some(td)) => Prepared::Dir(td),
+		Ok(None) => Prepared::Skip("base-missing".into()),
+		Err(e) => Prepared::Bad(e),
 	}
-	Prepared::Dir(td)
 }
 
 fn oracle_fold(dir: &Path) -> Ans {
@@ -354,28 +399,31 @@ fn oracle_fold(dir: &Path) -> Ans {
 	Ans::pass()
 }
 
-/// `full` = the replay-only op `oracle-perm-full`: no `WellFormedDir` restriction (witness of the known finding)
-fn oracle_perm(req: &Req, full: bool) -> Ans {
-	let names: Vec<&str> = req.files.iter().map(|f| f.name.as_str()).collect();
-	if !full && !well_formed(&names) { return Ans::out_of_domain(); }
-	let mut orders: Vec<Vec<&FileSpec>> = Vec::new();
+/// the whole answer (with the answer of `apply_diffs` as it is, also where several shortest paths exist) is the same in
+/// other creation orders on both file systems; `all` = in every creation order of the files (at most 6) on tmpfs, where
+/// the creation order decides the listing order
+fn oracle_perm(req: &Req, all: bool) -> Ans {
+	if all && req.files.len() > 6 { return Ans::out_of_domain(); }
 	let ranked = by_rank(&req.files);
-	orders.push(ranked.clone());
-	orders.push(ranked.iter().rev().cloned().collect());
-	let mut sorted = ranked.clone();
-	sorted.sort_by_key(|f| f.name.clone());
-	orders.push(sorted.clone());
-	orders.push(sorted.iter().rev().cloned().collect());
-	let mut rot = ranked.clone();
-	if !rot.is_empty() { rot.rotate_left(1); }
-	orders.push(rot);
+	let mut orders: Vec<Vec<&FileSpec>> = Vec::new();
+	if all {
+		for o in permutations(ranked.len()) { orders.push(o.iter().map(|&i| ranked[i]).collect()); }
+	} else {
+		orders.push(ranked.clone());
+		orders.push(ranked.iter().rev().cloned().collect());
+		let mut sorted = ranked.clone();
+		sorted.sort_by_key(|f| f.name.clone());
+		orders.push(sorted.clone());
+		orders.push(sorted.iter().rev().cloned().collect());
+		let mut rot = ranked.clone();
+		if !rot.is_empty() { rot.rotate_left(1); }
+		orders.push(rot);
+	}
 	let mut first: Option<Option<String>> = None;
-	let mut listings: BTreeSet<Vec<String>> = BTreeSet::new();
 	for base in 0..2 {
 		for o in orders.iter().take(if base == 0 { 1 } else { orders.len() }) {
 			let td = match materialize(base, o) { Ok(Some(td)) => td, Ok(None) => continue, Err(e) => return Ans::BadOp(e) };
-			listings.insert(listing(&td.0));
-			let a = vg_answer(&td.0, &req.queries).map(|s| s.to_string());
+			let a = vg_answer_with(&td.0, &req.queries, true).map(|s| s.to_string());
 			match &first { None => first = Some(a), Some(f) => if *f != a { return Ans::fail("order"); } }
 		}
 	}
@@ -385,13 +433,13 @@ fn oracle_perm(req: &Req, full: bool) -> Ans {
 
 fn oracle_names(req: &Req, dir: &Path) -> Ans {
 	let names: Vec<&str> = req.files.iter().map(|f| f.name.as_str()).collect();
-	if !well_formed(&names) { return Ans::out_of_domain(); }
 	let Ok(g) = VersionGraph::resolve(dir) else { return Ans::out_of_domain() };
 	let vss = dir_versions(&names);
 	let is = |q: &str, sp: Split, node: &str| matches!(g.get(q), Ok((s, v)) if s == sp && v.as_str() == node);
 	for vs in &vss {
 		let ok = match vs.split_once('~') {
-			None => is(vs, Split::None, vs),
+			// a plain name that is a half of a `client~server` version stands for that version
+			None => match owner_of(&vss, vs) { Some((sp, n)) => is(vs, sp, n), None => is(vs, Split::None, vs) },
 			Some((c, s)) => is(c, Split::First, vs) && (s == c || is(s, Split::Second, vs)),
 		};
 		if !ok { return Ans::fail("names"); }
@@ -414,7 +462,7 @@ fn reach_from(edges: &[(String, String)], start: &str) -> BTreeSet<String> {
 
 fn oracle_errors(req: &Req, dir: &Path) -> Ans {
 	let names: Vec<&str> = req.files.iter().map(|f| f.name.as_str()).collect();
-	if !well_formed(&names) { return Ans::out_of_domain(); }
+	let vss = dir_versions(&names);
 	let res = VersionGraph::resolve(dir);
 	let roots: Vec<&FileSpec> = req.files.iter().filter(|f| f.name.ends_with(".tiny")).collect();
 	let bad = names.iter().any(|n| file_versions(n).is_none());
@@ -422,9 +470,10 @@ fn oracle_errors(req: &Req, dir: &Path) -> Ans {
 	if bad { return must_fail("bad-name-accepted"); }
 	if roots.is_empty() { return must_fail("no-root-accepted"); }
 	if roots.len() >= 2 { return must_fail("two-roots-accepted"); }
-	let root_name = roots[0].name.strip_suffix(".tiny").unwrap_or("").to_owned();
-	let edges: Vec<(String, String)> = names.iter().filter_map(|n| n.strip_suffix(".tinydiff"))
-		.filter_map(|raw| raw.split_once('#')).map(|(p, c)| (p.to_owned(), c.to_owned())).collect();
+	if ambiguous(&vss) { return must_fail("ambiguous-accepted"); }
+	if dup_edges(&names) { return must_fail("second-diff-accepted"); }
+	let root_name = node_of(&vss, roots[0].name.strip_suffix(".tiny").unwrap_or(""));
+	let edges: Vec<(String, String)> = node_edges(&names).into_iter().map(|(p, c, _)| (p, c)).collect();
 	let reach = reach_from(&edges, &root_name);
 	let cyc = edges.iter().any(|(p, c)| reach.contains(p) && reach_from(&edges, c).contains(p));
 	if cyc { return must_fail("cycle-accepted"); }
@@ -438,6 +487,8 @@ fn oracle_errors(req: &Req, dir: &Path) -> Ans {
 			if readable { Ans::fail("rejected") } else { Ans::pass() }
 		}
 		Ok(g) => {
+			let nodes: BTreeSet<String> = g.versions().map(|v| v.as_str().to_owned()).collect();
+			if nodes != node_strings(&vss) || nodes.len() != g.versions().count() { return Ans::fail("nodes"); }
 			for v in g.versions() {
 				let n = v.as_str();
 				if reach.contains(n) {
@@ -458,9 +509,9 @@ fn oracle_path_independent(req: &Req, dir: &Path, labels: &Sexp) -> Ans {
 		let (Ok(n), Ok(m)) = (n.as_string(), from_sexp::<2, (Intermediary, Named)>(m)) else { return Ans::BadOp("label".into()) };
 		lab.entry(n).or_insert(m);
 	}
-	if !well_formed(&names) { return Ans::out_of_domain(); }
 	let Ok(g) = VersionGraph::resolve(dir) else { return Ans::out_of_domain() };
 	let Some(r) = analyse(&g) else { return Ans::fail("no-root-entry") };
+	let edge_files = node_edges(&names);
 	// domain: the labels are consistent with every diff file and with the root file. "Consistent with a diff file" is
 	// decided by the specification of diff application on the content the request gives for that file, not by reading
 	// and applying it with the code under test: an edge that the implementation cannot read or apply stays in the domain.
@@ -469,8 +520,9 @@ fn oracle_path_independent(req: &Req, dir: &Path, labels: &Sexp) -> Ans {
 	for (p, _) in &r.nodes {
 		let Some(mp) = lab.get(p) else { continue };
 		for c in r.adj.get(p).cloned().unwrap_or_default() {
-			let fname = format!("{p}#{c}.tinydiff");
-			let Some(Content::Diff(d)) = req.files.iter().find(|f| f.name == fname).map(|f| &f.content) else { return Ans::out_of_domain() };
+			// the diff file of this edge (file names may spell a `client~server` version by one half)
+			let Some(fname) = edge_files.iter().find(|(ep, ec, _)| ep == p && *ec == c).map(|(_, _, f)| f) else { return Ans::out_of_domain() };
+			let Some(Content::Diff(d)) = req.files.iter().find(|f| f.name == *fname).map(|f| &f.content) else { return Ans::out_of_domain() };
 			let Ok(mc) = spec_apply(d, &to_sexp(mp), &Sexp::str("named")) else { return Ans::out_of_domain() };
 			match lab.get(&c) { Some(lc) if canon_mappings(&to_sexp(lc)) == mc => {}, _ => return Ans::out_of_domain() }
 		}
@@ -486,14 +538,14 @@ fn oracle_path_independent(req: &Req, dir: &Path, labels: &Sexp) -> Ans {
 
 fn exec(op: &str, args: &[Sexp]) -> Ans {
 	let (req, labels) = match (op, args) {
-		("vg" | "oracle-fold" | "oracle-perm" | "oracle-perm-full" | "oracle-names" | "oracle-errors", [b, fs, qs]) => (parse_req(b, fs, qs), None),
+		("vg" | "oracle-fold" | "oracle-perm-full" | "oracle-perm-all" | "oracle-names" | "oracle-errors", [b, fs, qs]) => (parse_req(b, fs, qs), None),
 		("oracle-path-independent", [b, fs, qs, ls]) => (parse_req(b, fs, qs), Some(ls)),
 		_ => return Ans::BadOp("unknown op".into()),
 	};
 	let req = match req { Ok(r) => r, Err(e) => return Ans::BadOp(e) };
 	// every content must be in the codec domain, whatever the op does with it
 	for f in &req.files { if let Err(e) = f.content.bytes() { return Ans::BadOp(e); } }
-	if op == "oracle-perm" || op == "oracle-perm-full" { return oracle_perm(&req, op == "oracle-perm-full"); }
+	if op == "oracle-perm-full" || op == "oracle-perm-all" { return oracle_perm(&req, op == "oracle-perm-all"); }
 	let td = match prepare(&req) { Prepared::Dir(td) => td, Prepared::Skip(w) => return Ans::Skip(w), Prepared::Bad(e) => return Ans::BadOp(e) };
 	match op {
 		"vg" => match vg_answer(&td.0, &req.queries) { Some(s) => Ans::Ok(s), None => Ans::err() },
@@ -806,6 +858,17 @@ const ATOMS: &[&str] = &["1.0", "1.1", "1.2", "1.3", "b1.4", "a1.0.15", "12w05a"
 
 struct GenDir { files: Vec<FileSpec>, queries: Vec<String>, labels: Vec<(String, Sexp)>, kind: String }
 
+/// how a file name mentions node `i`: by its name, or (alias directories, `a~b` names, after a first mention in full) by a half
+fn spell(r: &mut Rng, names: &[String], alias: bool, spelled_full: &mut [bool], i: usize, st: &mut Out) -> String {
+	let name = &names[i];
+	if !alias { return name.clone(); }
+	let Some((a, b)) = name.split_once('~') else { return name.clone() };
+	if b.contains('~') || a.contains('#') || b.contains('#') || a.is_empty() || b.is_empty() { return name.clone(); }
+	if !spelled_full[i] || r.chance(1, 3) { spelled_full[i] = true; return name.clone(); }
+	st.stats.hit("alias:spelled-by-half");
+	if r.chance(1, 2) { a.to_owned() } else { b.to_owned() }
+}
+
 /// one random directory: a graph shape, node names, an edit history along the edges, defects
 fn gen_dir(r: &mut Rng, st: &mut Out) -> Option<GenDir> {
 	// "direct": the diffs on the edges are drawn directly (generator of C04) against the label of the parent version and the
@@ -849,9 +912,21 @@ fn gen_dir(r: &mut Rng, st: &mut Out) -> Option<GenDir> {
 		let i = r.below(n);
 		let j = (i + 1 + r.below(n - 1)) % n;
 		let key = (*r.pick(&keys_of(&names[i]))).to_owned();
-		names[j] = match r.below(3) { 0 => key, 1 => format!("{}~{key}", take(&mut atoms)), _ => format!("{key}~{}", take(&mut atoms)) };
+		// a plain name that is a half of another one, or a second `client~server` name with a shared half in either place
+		let variant = r.below(6);
+		names[j] = match variant {
+			0 | 1 => key,
+			2 => format!("{}~{key}", take(&mut atoms)),
+			3 => format!("{key}~{}", take(&mut atoms)),
+			4 => match names[i].split_once('~') { Some((a, b)) if a != b => format!("{b}~{a}"), _ => format!("{key}~{key}") },
+			_ => format!("{key}~{key}"),
+		};
 		if names[j] == names[i] { names[j] = format!("{}~{}", names[i], take(&mut atoms)); }
+		st.stats.hit(&format!("collide:{}:{}", if is_split(&names[i]) { "split" } else { "plain" }, ["half", "half", "x~half", "half~x", "swapped", "half~half"][variant]));
 	}
+	// file names may spell a `client~server` version by one of its halves (the feature the lookup table exists for)
+	let alias = r.chance(1, 3);
+	let mut spelled_full = vec![false; n];
 
 	// ---- edges (node 0 is the root; parents are earlier nodes)
 	let mut edges: Vec<(usize, usize)> = Vec::new();
@@ -915,6 +990,7 @@ fn gen_dir(r: &mut Rng, st: &mut Out) -> Option<GenDir> {
 	if defect == "raw-root" { root_content = Content::Raw(r.pick(RAW_ALLOWED).to_vec()); }
 	let bad_edge = if edges.is_empty() { 0 } else if shape == "diamond" && r.chance(2, 3) { r.below(4) } else { r.below(edges.len()) };
 	let mut edge_files: Vec<(String, Content)> = Vec::new();
+	if defect != "no-root" { spelled_full[0] = true; }
 	// additions (new keys, names given to unnamed entries) on the way from the root, per node
 	let mut added: Vec<BTreeSet<String>> = vec![BTreeSet::new(); n];
 	for (i, (p, c)) in edges.iter().enumerate() {
@@ -948,14 +1024,16 @@ fn gen_dir(r: &mut Rng, st: &mut Out) -> Option<GenDir> {
 			if tree_edge { added[*c] = a; }
 			if tree_edge && refused[*c] { st.stats.hit("edge:file:refused-by-specification"); }
 		}
-		edge_files.push((format!("{}#{}.tinydiff", names[*p], names[*c]), content));
+		let (sp, sc) = (spell(r, &names, alias, &mut spelled_full, *p, st), spell(r, &names, alias, &mut spelled_full, *c, st));
+		edge_files.push((format!("{sp}#{sc}.tinydiff"), content));
 	}
 	let empty_diff = Content::Diff(empty_diff());
 	match defect.as_str() {
 		"cycle" => {
 			let (p, c) = edges[bad_edge];
 			let back = if r.chance(1, 2) { p } else { r.below(c + 1) };
-			edge_files.push((format!("{}#{}.tinydiff", names[c], names[back]), empty_diff.clone()));
+			let (sp, sc) = (spell(r, &names, alias, &mut spelled_full, c, st), spell(r, &names, alias, &mut spelled_full, back, st));
+			edge_files.push((format!("{sp}#{sc}.tinydiff"), empty_diff.clone()));
 		}
 		"root-cycle" => { let (_, c) = edges[bad_edge]; edge_files.push((format!("{}#{}.tinydiff", names[c], names[0]), empty_diff.clone())); }
 		"self-loop" => { let v = r.below(n); edge_files.push((format!("{}#{}.tinydiff", names[v], names[v]), empty_diff.clone())); }
@@ -992,6 +1070,11 @@ fn gen_dir(r: &mut Rng, st: &mut Out) -> Option<GenDir> {
 	st.stats.hit(&format!("nodes:{n}"));
 	st.stats.hit(&format!("files:{}", files.len()));
 	st.stats.hit(if wf { "well-formed" } else { "key-collision" });
+	if alias { st.stats.hit("alias-dir"); }
+	let vss = dir_versions(&fnames);
+	if ambiguous(&vss) { st.stats.hit("dir:ambiguous-key"); }
+	if dup_edges(&fnames) { st.stats.hit("dir:second-diff-for-an-edge"); }
+	if vss.iter().any(|v| !is_split(v) && owner_of(&vss, v).is_some()) { st.stats.hit("dir:half-used-as-name"); }
 	Some(GenDir { files, queries, labels, kind: format!("{}/{shape}/{defect}", if direct { "direct" } else { "history" }) })
 }
 
@@ -1082,6 +1165,82 @@ fn scenario() -> Option<Vec<GenDir>> {
 	Some(dirs)
 }
 
+// =================================================================== directories with shared halves
+
+/// stems of diff files over a few atoms: every way two version strings can share a key (`a~b` with `b`, `a`, `c~b`,
+/// `b~c`, `a~c`, `b~a`, `a~a`, `a~b~c`), halves used as parent or child, second diffs for one edge, cycles through a half
+const SHARED_POOL: &[&str] = &["r#a~b", "r#b", "r#a", "b#c", "a#c", "a~b#c", "r#c~b", "r#b~c", "r#a~c", "r#b~a", "c#a~b", "b#a",
+	"r#a~a", "a#d", "c~d#a", "r#c", "c#b", "r#a~b~c", "b~c#d", "a~b#b", "d#r"];
+
+fn minimal_root() -> Content {
+	Content::Tiny(Sexp::list(vec![Sexp::list(vec![Sexp::str("intermediary"), Sexp::str("named")]), Sexp::list(vec![]), Sexp::list(vec![])]))
+}
+
+/// the content of the `k`-th pool file: a diff that adds the class `k<k>` (so the answers show which files were applied)
+fn pool_diff(k: usize) -> Content {
+	Content::Diff(norm_g(&GDiff { info: GA::None, doc: GA::None, classes: vec![dclass(&format!("k{k}"), ga_add(&format!("N{k}")), GA::None, vec![], vec![])] }))
+}
+
+fn shared_dir(root: &str, picks: &[usize]) -> GenDir {
+	let mut files = vec![FileSpec { name: format!("{root}.tiny"), rank: 0, content: minimal_root() }];
+	for &k in picks { files.push(FileSpec { name: format!("{}.tinydiff", SHARED_POOL[k]), rank: 0, content: pool_diff(k) }); }
+	let fnames: Vec<&str> = files.iter().map(|f| f.name.as_str()).collect();
+	let mut queries: Vec<String> = Vec::new();
+	for vs in dir_versions(&fnames) { for k in keys_of(&vs) { queries.push(k.to_owned()); } queries.push(vs); }
+	for q in ["a", "b", "c", "a~b", "nope"] { queries.push(q.to_owned()); }
+	let mut seen = BTreeSet::new();
+	queries.retain(|q| seen.insert(q.clone()));
+	GenDir { files, queries, labels: vec![], kind: "shared".into() }
+}
+
+/// the stream of directories whose version strings share halves: all small subsets of the pool, then random larger ones;
+/// every one in several creation orders, the small ones in ALL creation orders (`oracle-perm-all`)
+fn gen_shared(r: &mut Rng, tier: Tier, out: &mut Out, bases: &[usize]) {
+	let thorough = tier == Tier::Thorough;
+	let m = SHARED_POOL.len();
+	let mut dirs: Vec<GenDir> = Vec::new();
+	for i in 0..m {
+		dirs.push(shared_dir("r", &[i]));
+		for j in i + 1..m {
+			dirs.push(shared_dir("r", &[i, j]));
+			if thorough { for k in j + 1..m { dirs.push(shared_dir("r", &[i, j, k])); } }
+		}
+	}
+	for _ in 0..(if thorough { 2500 } else { 180 }) {
+		let size = r.range(3, 5);
+		let mut idx: Vec<usize> = (0..m).collect();
+		r.shuffle(&mut idx);
+		idx.truncate(size);
+		// the root file may itself be named by a half, or by a `client~server` name
+		let root = *r.pick(&["r", "r", "r", "r", "a~b", "b", "a", "c"]);
+		dirs.push(shared_dir(root, &idx));
+	}
+	let all_limit = if thorough { 6 } else { 4 };
+	for (k, d) in dirs.iter().enumerate() {
+		let fnames: Vec<&str> = d.files.iter().map(|f| f.name.as_str()).collect();
+		let vss = dir_versions(&fnames);
+		out.stats.hit("shared-dir");
+		out.stats.hit(if ambiguous(&vss) { "shared:ambiguous-key" } else if dup_edges(&fnames) { "shared:second-diff-for-an-edge" }
+			else if vss.iter().any(|v| !is_split(v) && owner_of(&vss, v).is_some()) { "shared:half-used-as-name" } else { "shared:no-shared-key" });
+		let n = d.files.len();
+		let mut first = true;
+		for &base in bases.iter().rev() {
+			let mut o: Vec<usize> = (0..n).collect();
+			for _ in 0..(if base == 1 { 2 } else { 1 }) {
+				r.shuffle(&mut o);
+				let Some(listed) = probe(base, &d.files, &o) else { out.stats.hit("gen:probe-failed"); continue };
+				emit(out, "vg", base, &listed, &d.queries, None);
+				if first {
+					first = false;
+					for op in ["oracle-names", "oracle-errors", "oracle-fold"] { emit(out, op, base, &listed, &d.queries, None); }
+					if n <= all_limit { out.stats.hit(&format!("all-orders:files={n}")); emit(out, "oracle-perm-all", base, &listed, &d.queries, None); }
+					else if thorough || k % 2 == 0 { emit(out, "oracle-perm-full", base, &listed, &d.queries, None); }
+				}
+			}
+		}
+	}
+}
+
 /// assigns the ranks of a creation order, creates the directory, and returns the files in listing order
 fn probe(base: usize, files: &[FileSpec], order: &[usize]) -> Option<Vec<FileSpec>> {
 	let mut fs: Vec<FileSpec> = files.to_vec();
@@ -1152,7 +1311,7 @@ fn gen(r: &mut Rng, tier: Tier, out: &mut Out) {
 				for o in [fwd, rev] {
 					let Some(listed) = probe(base, &d.files, &o) else { out.stats.hit("gen:probe-failed"); continue };
 					out.stats.hit("scenario-dir");
-					for op in ["vg", "oracle-fold", "oracle-errors", "oracle-names", "oracle-perm"] { emit(out, op, base, &listed, &d.queries, None); }
+					for op in ["vg", "oracle-fold", "oracle-errors", "oracle-names", "oracle-perm-full"] { emit(out, op, base, &listed, &d.queries, None); }
 					// once per directory: a failure is then reported for three different histories
 					if first { first = false; emit(out, "oracle-path-independent", base, &listed, &d.queries, Some(&d.labels)); }
 				}
@@ -1184,7 +1343,9 @@ fn gen(r: &mut Rng, tier: Tier, out: &mut Out) {
 					classify(out, base, &listed, &d.queries, &d.labels, &d.kind);
 					emit(out, "oracle-names", base, &listed, &d.queries, None);
 					emit(out, "oracle-path-independent", base, &listed, &d.queries, Some(&d.labels));
-					if made % 2 == 0 { emit(out, "oracle-perm", base, &listed, &d.queries, None); }
+					// every directory, whatever its version strings share
+					if n <= (if tier == Tier::Thorough { 5 } else { 3 }) && made % 3 == 0 { out.stats.hit(&format!("all-orders:files={n}")); emit(out, "oracle-perm-all", base, &listed, &d.queries, None); }
+					else if tier == Tier::Thorough || made % 2 == 0 { emit(out, "oracle-perm-full", base, &listed, &d.queries, None); }
 				}
 			}
 		}
@@ -1197,18 +1358,20 @@ fn gen(r: &mut Rng, tier: Tier, out: &mut Out) {
 			}
 		}
 	}
-	// the directory of `Thm.C05.resolve_perm_collision_witness`, in every creation order
-	let empty = Content::Diff(Sexp::list(vec![Sexp::tag("none"), Sexp::tag("none"), Sexp::list(vec![])]));
-	let root = Content::Tiny(Sexp::list(vec![Sexp::list(vec![Sexp::str("intermediary"), Sexp::str("named")]), Sexp::list(vec![]), Sexp::list(vec![])]));
-	let files = vec![
-		FileSpec { name: "r.tiny".into(), rank: 0, content: root },
-		FileSpec { name: "r#a~b.tinydiff".into(), rank: 0, content: empty.clone() },
-		FileSpec { name: "r#b.tinydiff".into(), rank: 0, content: empty },
-	];
-	let queries: Vec<String> = ["a", "b", "a~b", "r"].iter().map(|s| (*s).to_owned()).collect();
-	for &base in &bases {
-		for order in permutations(3) {
-			if let Some(listed) = probe(base, &files, &order) { out.stats.hit("witness-dir"); emit(out, "vg", base, &listed, &queries, None); }
+	gen_shared(r, tier, out, &bases);
+	// the directory of `Thm.C05.resolve_perm_collision_regression` (the former order-dependence witness) and the one of
+	// `alias_regression`, in every creation order
+	for stems in [["r#a~b", "r#b"], ["r#a~b", "b#c"]] {
+		let mut files = vec![FileSpec { name: "r.tiny".into(), rank: 0, content: minimal_root() }];
+		for (k, st) in stems.iter().enumerate() { files.push(FileSpec { name: format!("{st}.tinydiff"), rank: 0, content: if stems[1] == "r#b" { Content::Diff(empty_diff()) } else { pool_diff(k) } }); }
+		let queries: Vec<String> = ["a", "b", "a~b", "r", "c"].iter().map(|s| (*s).to_owned()).collect();
+		for &base in &bases {
+			for order in permutations(3) {
+				if let Some(listed) = probe(base, &files, &order) {
+					out.stats.hit("witness-dir");
+					for op in ["vg", "oracle-names", "oracle-errors", "oracle-perm-full", "oracle-perm-all"] { emit(out, op, base, &listed, &queries, None); }
+				}
+			}
 		}
 	}
 	// malformed requests: both sides must refuse them
